@@ -137,9 +137,6 @@ func c07families(thorough bool) []*c07family {
 		for _, mc := range seqConfs {
 			for rl := 0; rl <= 1; rl++ {
 				att := mc[0] + mc[1] + 1
-				if att == 4 && rl == 1 {
-					continue // 851^2 executions per family: beyond the thorough budget
-				}
 				if !thorough && att == 3 && rl == 1 {
 					continue // 211^2 executions per family: thorough only
 				}
@@ -179,11 +176,11 @@ func (q *c07req) class() string {
 	if q == nil {
 		return "none"
 	}
+	if q.finished { // always the last event of a request
+		return "forward-finish"
+	}
 	if n := len(q.answers); n > 0 && q.answers[n-1] == "fcgi-write" {
 		return "fcgi-write-error"
-	}
-	if q.finished {
-		return "forward-finish"
 	}
 	if q.changed {
 		return "filter-changed-backend"
